@@ -19,7 +19,7 @@ func init() {
 	register(&Rule{ID: "R-SCOPEFRESH", Floor: 1, Run: ruleScopeFresh,
 		Text: "Every scope pushed on the scope stack is a freshly made, empty map: a scope never starts with the bindings of a scope that was closed earlier."})
 	register(&Rule{ID: "R-NUMBASE", Floor: 2, Run: ruleNumBase,
-		Text: "Numeric literals are converted with an explicit base 10 (strconv.ParseInt / ParseUint) and 64-bit precision (ParseFloat): the base is never inferred from the literal's prefix."})
+		Text: "Numeric literals are converted with an explicit base 10 (strconv.ParseInt / ParseUint) and 64-bit precision (ParseFloat): the base is never inferred from the literal's prefix; an unsigned result becomes one of the language's (signed) integers only after a comparison with a bound."})
 	register(&Rule{ID: "R-INDEXRESULT", Floor: 1, Run: ruleIndexResult,
 		Text: "A position returned by strings.Index and its relatives is used as a slice bound or index only where a comparison has excluded the not-found value -1."})
 	register(&Rule{ID: "R-LOCKSET", Floor: 2, Run: ruleLockSet,
@@ -2292,7 +2292,7 @@ func loadAddr(v ssa.Value) ssa.Value {
 
 func init() {
 	register(&Rule{ID: "R-MATCHONCE", Floor: 1, Run: ruleMatchOnce,
-		Text: "The regexp matcher behind ~=, !~ and match() applies the pattern to the subject at least once for every subject, the empty string included: the lines it tries are the elements of strings.Split(subject, sep) — never empty — and the pattern is tried in every iteration. A loop that can run zero times answers 'no match' without asking the pattern, although /^$/ and /x*/ match the empty string."})
+		Text: "The regexp matcher behind ~=, !~ and match() applies the pattern to the subject at least once for every subject, the empty string included: the lines it tries are the elements of strings.Split(subject, sep) — never empty — and the pattern is tried in every iteration. A loop that can run zero times answers 'no match' without asking the pattern, although /^$/ and /x*/ match the empty string.  Where the pattern is applied in several places they agree about how the subject was prepared (trimmed or not)."})
 }
 
 func ruleMatchOnce(p *Program, r *Reporter) {
